@@ -70,8 +70,27 @@ def bin_obligations(chk):
             goals.append(("shape=data.shape/n", z3.And(*[zi(p) == q for p, q in zip(out.shape, want_shape)])))
             inb = z3.And(r >= 0, r < H, c >= 0, c < Wd, *([b >= 0, b < B] if rank == 3 else []))
             code = zr(out.get(lead + [r, c]))
-            spec = zr(npmodel.sigma(it, [(0, n), (0, n)], lambda idx: d.get(lead + [n * r + idx[0], n * c + idx[1]]), "block"))
-            sc, ss = sigma.find_sums(code), sigma.find_sums(spec)
+            sc = sigma.find_sums(code)
+            # the block sum may be enumerated in either direction along each axis (i -> n-1-i is a bijection of range(n)): the spec term
+            # is built for the enumeration the code's loops use.  The probe below only CHOOSES which of the four (equal) spec terms to
+            # relate to the code; the obligations of the chosen one are emitted and discharged like all others.
+            chosen = None
+            for fy in (False, True):
+                for fx in (False, True):
+                    enum = lambda idx, fy=fy, fx=fx: d.get(lead + [n * r + ((n - 1 - idx[0]) if fy else idx[0]), n * c + ((n - 1 - idx[1]) if fx else idx[1])])
+                    spec_k = zr(npmodel.sigma(it, [(0, n), (0, n)], enum, "block"))
+                    ss_k = sigma.find_sums(spec_k)
+                    if chosen is None:
+                        chosen = (spec_k, ss_k)          # default: the forward enumeration
+                    if len(sc) == 1 and len(ss_k) == 1 and (fy or fx):
+                        o_k, _ = sigma.fubini(it.ctx, ss_k[0], sc[0])
+                        if all(it.ctx.valid(z3.Implies(inb, f)) for _, f in o_k):
+                            chosen = (spec_k, ss_k)
+                            break
+                else:
+                    continue
+                break
+            spec, ss = chosen
             shape_ok = len(sc) == 1 and len(ss) == 1
             goals.append(("result-is-one-nested-sum-over-the-two-loops", z3.BoolVal(shape_ok)))
             if not shape_ok:
@@ -83,6 +102,7 @@ def bin_obligations(chk):
         verify(chk, "binImgs[every n,rank%d]" % rank, IP + ":binImgs", run, post, clause="bin",
                replay=lambda m, rank=rank: {"n": num(m.eval(n, model_completion=True)), "rank": rank, "H": num(m.eval(H, model_completion=True)), "W": num(m.eval(Wd, model_completion=True)), "B": num(m.eval(B, model_completion=True))},
                encoding="loop summaries over range(n) with symbolic slice step, Sigma rule Fubini (bin factor, image and stack sizes all symbolic)")
+    chk.math_lemmas.append("the sum over an n x n block does not depend on the direction in which each axis is enumerated (i -> n-1-i is a bijection of range(n))")
     chk.math_lemmas.append("total flux: sum of all n x n block sums of an (H n) x (W n) image = sum of the image (the blocks partition the index set; consequence of the block-sum clause)")
 
 
